@@ -623,6 +623,7 @@ fn run(a: &vhcore::Args) -> i32 {
     rep.set("rule", "stateless DFS over all interleavings of the H4 step points of real child processes (real PidFileLocking code, real pids, real `ps`), within the per-scenario preemption and crash bounds (99 = unbounded); oracles: every completed is_file_dirty() against the lock windows, and after EVERY step the state invariant 'an owner inside its lock window => the directory holds a flag naming a live process'; `stale+` scenarios start from the flag of a dead former owner written by the real code; states = distinct (lock directory contents, per-process program counter); distinct_nontrivial = distinct event sequences observed");
     rep.set("scenarios", json!(per_scn));
     rep.set("exhaustive", exhaustive);
+    rep.set("prefix_divergences_retried", vhcore::sched::DIVERGENCE_RETRIES.load(std::sync::atomic::Ordering::SeqCst));
     rep.assume("sequential consistency at the granularity of one file-system operation (exact for POSIX path operations between processes)");
     rep.assume("crash = SIGKILL at a step point; completed operations persist (process crash, not power loss)");
     rep.finish()
